@@ -394,6 +394,9 @@ def clause5_origin(ctx, P):
                 base_t = P.term(f, src)
 
                 def fam(atom, pol, want=want, base_t=base_t):
+                    if atom[0] == "switch":
+                        b = Q.is_field_load(atom[1], "struct.sockaddr_storage", "ss_family")
+                        return b is not None and b == base_t and atom[2] == want
                     if atom[0] != "cmp":
                         return False
                     l, r = atom[2], atom[3]
